@@ -217,8 +217,19 @@ func splitTop(s string, sep byte) []string {
 	depth := 0
 	var parts []string
 	last := 0
+	inStr := false
 	for i := 0; i < len(s); i++ {
+		if inStr {
+			if s[i] == '\\' {
+				i++
+			} else if s[i] == '"' {
+				inStr = false
+			}
+			continue
+		}
 		switch s[i] {
+		case '"':
+			inStr = true
 		case '(', '[', '{':
 			depth++
 		case ')', ']', '}':
@@ -313,7 +324,14 @@ func rewriteImpliesOne(s string) string {
 	depth := 0
 	var segs []string
 	last := 0
+	inStr := false
 	for i := 0; i+2 < len(s); i++ {
+		if s[i] == '"' {
+			inStr = !inStr
+		}
+		if inStr {
+			continue
+		}
 		switch s[i] {
 		case '(', '[', '{':
 			depth++
@@ -339,8 +357,16 @@ func rewriteImpliesOne(s string) string {
 
 func rewriteGroups(s string) string {
 	var out strings.Builder
+	inStr := false
 	for i := 0; i < len(s); i++ {
 		c := s[i]
+		if c == '"' {
+			inStr = !inStr
+		}
+		if inStr {
+			out.WriteByte(c)
+			continue
+		}
 		if c == '(' || c == '[' {
 			closeC := byte(')')
 			if c == '[' {
@@ -348,7 +374,14 @@ func rewriteGroups(s string) string {
 			}
 			depth := 1
 			j := i + 1
+			inS := false
 			for ; j < len(s) && depth > 0; j++ {
+				if s[j] == '"' {
+					inS = !inS
+				}
+				if inS {
+					continue
+				}
 				if s[j] == c {
 					depth++
 				} else if s[j] == closeC {
@@ -382,6 +415,7 @@ type CEnv struct {
 	bound  map[string]TV
 	useOld bool
 	fn     *ssa.Function
+	extraLocs []Ptr
 }
 
 func (e *CEnv) state() *State {
@@ -1029,11 +1063,19 @@ func (e *CEnv) callFn(f *ssa.Function, recv *TV, argx []ast.Expr) TV {
 
 // evalLoc evaluates a location expression (for assigns / modifies): returns object and path prefix
 func (e *CEnv) evalLoc(src string) Ptr {
+	ps := e.evalLocs(src)
+	return ps[len(ps)-1]
+}
+
+// evalLocs: a slice- or map-typed field denotes both its header and its contents
+func (e *CEnv) evalLocs(src string) []Ptr {
 	ex, err := parser.ParseExpr(src)
 	if err != nil {
 		fail("contract: bad location %q: %v", src, err)
 	}
-	return e.loc(ex)
+	e.extraLocs = nil
+	p := e.loc(ex)
+	return append(e.extraLocs, p)
 }
 
 func (e *CEnv) loc(ex ast.Expr) Ptr {
@@ -1084,11 +1126,13 @@ func (e *CEnv) loc(ex ast.Expr) Ptr {
 			sv := e.x.load(e.post, np).(SliceV)
 			if sv.Obj != nil {
 				// both the header and the backing store
+				e.extraLocs = append(e.extraLocs, np)
 				return Ptr{Obj: sv.Obj, Path: sv.Base}
 			}
 		case *types.Map:
 			mv := e.x.load(e.post, np).(MapV)
 			if mv.Obj != nil {
+				e.extraLocs = append(e.extraLocs, np)
 				return Ptr{Obj: mv.Obj}
 			}
 		}
